@@ -106,7 +106,12 @@ def server_request_variants(rng, n):
 CALLBACKS = ['none', 'add:' + hdrs_field([(b'x-added', b'1'), (b'sec-websocket-protocol', b'chat')]),
              'rej:403:' + hx(b'Forbidden by callback') + ':' + hdrs_field([(b'x-why', b'no')]),
              'rej:404:none:-', 'rej:200:' + hx(b'ok?') + ':-', 'rej:500:' + hx(b'e' * 300) + ':-',
-             'rej:301:' + hx(b'moved') + ':' + hdrs_field([(b'location', b'http://elsewhere/')]), 'rej:302:none:-', 'rej:100:none:-', 'rej:304:none:-', 'rej:204:none:-']
+             'rej:301:' + hx(b'moved') + ':' + hdrs_field([(b'location', b'http://elsewhere/')]), 'rej:302:none:-', 'rej:100:none:-', 'rej:304:none:-', 'rej:204:none:-',
+             # header names that carry several values (HeaderMap::append): every value must reach the wire
+             'add:' + hdrs_field([(b'set-cookie', b'a=1'), (b'x-one', b'1'), (b'set-cookie', b'b=2'), (b'set-cookie', b'c=3')]),
+             'add:' + hdrs_field([(b'sec-websocket-extensions', b'x'), (b'x-a', b'1'), (b'sec-websocket-extensions', b'y')]),
+             'rej:403:' + hx(b'who?') + ':' + hdrs_field([(b'www-authenticate', b'Basic realm=a'), (b'www-authenticate', b'Bearer'), (b'x-z', b'1')]),
+             'rej:400:none:' + hdrs_field([(b'retry-after', b'1'), (b'retry-after', b'2')])]
 
 WPATS = [[], ['a:1'] * 5, ['e:wb', 'a:7', 'e:wb'], ['a:2', 'e:wb', 'e:wb', 'a:50'], ['e:intr'], ['e:other'], ['a:0'], ['e:wb', 'a:0']]
 FPATS = [[], ['e:wb'], ['e:wb', 'e:wb', 'ok'], ['e:other'], ['e:intr']]
